@@ -17,7 +17,6 @@ package s3event
 import (
 	"context"
 	"encoding/json"
-	"encoding/xml"
 	"fmt"
 	"os"
 	"sync"
@@ -25,7 +24,6 @@ import (
 
 	"github.com/gofiber/fiber/v2"
 	"github.com/segmentio/kafka-go"
-	"github.com/versity/versitygw/s3response"
 )
 
 var sequencer = 0
@@ -82,20 +80,14 @@ func (ks *Kafka) SendEvent(ctx *fiber.Ctx, meta EventMeta) {
 	}
 
 	if meta.EventName == EventObjectRemovedDeleteObjects {
-		var dObj s3response.DeleteObjects
-
-		if err := xml.Unmarshal(ctx.Body(), &dObj); err != nil {
+		events, err := deleteObjectsEvents(ctx, meta, ConfigurationIdWebhook)
+		if err != nil {
 			fmt.Fprintf(os.Stderr, "failed to parse delete objects input payload: %v\n", err.Error())
 			return
 		}
 
 		// Events aren't send in correct order
-		for _, obj := range dObj.Objects {
-			key := *obj.Key
-			schema := createEventSchema(ctx, meta, ConfigurationIdWebhook)
-			schema.Records[0].S3.Object.Key = key
-			schema.Records[0].S3.Object.VersionId = obj.VersionId
-
+		for _, schema := range events {
 			go ks.send(schema)
 		}
 
